@@ -31,6 +31,15 @@ pub fn add_small_trace(_v: &mut VecType, y: Limb) -> Option<()> {
 }
 
 pub fn contract<const NI: usize, const NF: usize, const MAX: usize, const Z: usize>() {
+    contract_impl::<NI, NF, MAX, Z, false>()
+}
+
+/// the same contract with both parts supplied by cursor iterators (default size_hint, own position)
+pub fn contract_cursor<const NI: usize, const NF: usize, const MAX: usize, const Z: usize>() {
+    contract_impl::<NI, NF, MAX, Z, true>()
+}
+
+fn contract_impl<const NI: usize, const NF: usize, const MAX: usize, const Z: usize, const CURSOR: bool>() {
     let int: [u8; NI] = any_digits();
     let mut frac: [u8; NF] = any_digits();
     if NI > 0 {
@@ -55,7 +64,11 @@ pub fn contract<const NI: usize, const NF: usize, const MAX: usize, const Z: usi
     unsafe {
         T_N = 0;
     }
-    let (_big, count) = parse_mantissa(int.iter(), frac.iter(), MAX);
+    let (_big, count) = if CURSOR {
+        parse_mantissa(crate::pn::Cursor { data: &int, pos: 0 }, crate::pn::Cursor { data: &frac, pos: 0 }, MAX)
+    } else {
+        parse_mantissa(int.iter(), frac.iter(), MAX)
+    };
 
     // reference trace
     let mut e_kind = [0u8; 64];
